@@ -77,24 +77,12 @@ pub fn replay_case<H: HB>(c: &Case) -> Result<(), String> {
     }
     if c.probe.as_deref() == Some("big-equality-hashers") {
         if let Root::FromVec(pairs) = &c.root {
-            return if c.double {
-                crate::props::big_equality::<DPQ<StdRandom>, DPQ<StdRandom>, DPQ<CollideAll>>(pairs, |a, b| a == b, |a, b| a == b, |a, b| b == a)
-                    .and_then(|_| crate::props::big_equality::<DPQ<Seeded>, DPQ<Seeded>, DPQ<FixedSip>>(pairs, |a, b| a == b, |a, b| a == b, |a, b| b == a))
-                    .and_then(|_| crate::props::big_equality::<DPQ<FnvBuild>, DPQ<FnvBuild>, DPQ<StdRandom>>(pairs, |a, b| a == b, |a, b| a == b, |a, b| b == a))
-            } else {
-                crate::props::big_equality::<PQ<StdRandom>, PQ<StdRandom>, PQ<CollideAll>>(pairs, |a, b| a == b, |a, b| a == b, |a, b| b == a)
-                    .and_then(|_| crate::props::big_equality::<PQ<Seeded>, PQ<Seeded>, PQ<FixedSip>>(pairs, |a, b| a == b, |a, b| a == b, |a, b| b == a))
-                    .and_then(|_| crate::props::big_equality::<PQ<FnvBuild>, PQ<FnvBuild>, PQ<StdRandom>>(pairs, |a, b| a == b, |a, b| a == b, |a, b| b == a))
-            };
+            return crate::props::big_equality_hashers(pairs, c.double);
         }
     }
     if c.probe.as_deref() == Some("big-equality") {
         if let Root::FromVec(pairs) = &c.root {
-            return if c.double {
-                crate::props::big_equality::<DPQ<StdRandom>, DPQ<StdRandom>, DPQ<FnvBuild>>(pairs, |a, b| a == b, |a, b| a == b, |a, b| b == a)
-            } else {
-                crate::props::big_equality::<PQ<StdRandom>, PQ<StdRandom>, PQ<FnvBuild>>(pairs, |a, b| a == b, |a, b| a == b, |a, b| b == a)
-            };
+            return crate::props::big_equality_c14(pairs, c.double);
         }
     }
     if c.probe.as_deref() == Some("alloc-failure-grid") {
